@@ -215,7 +215,7 @@ pub fn run(ctx: &mut Ctx) {
         "reversed range endpoints (start > end) are outside the statement ('the run between its endpoints') and are not generated".into(),
         "espada values are built only through Card::new and enum variants, so the model numbering is independent of the conversions under test".into(),
     ];
-    ctx.exhaustive = true;
+    ctx.exhaustive = env_scale() >= 1.0;
     let all = cases(ctx.tier);
     let n = all.len() as u64;
     ctx.run_enum(StreamCfg::new("encodings", CLASSES, n), n, true, |i| all[i as usize].clone(), check);
